@@ -35,6 +35,10 @@ package main
 //          key (never listed) => VIOLATION with this block as the failing input.
 //        - error >= 3 (larger than any listed witness), whatever the outputs:
 //          Fail with the per-block key => VIOLATION (a new, stronger finding).
+//          On the unchanged tables the error is PROVED to lie in [-3, +4] for every
+//          block (Props.C18.idct_fdct_error_range), so 3 or 4 cannot be excluded
+//          a priori; the search has never produced one (3*10^6 random + 6000
+//          hill-climbed blocks per thorough run: 90 blocks with error 2, none above).
 //   So: the magnitude and the outputs of the listed blocks, and agreement with the
 //   frozen reference for unlisted ones, are what distinguish old from new.
 
